@@ -106,8 +106,10 @@ Start ==
   /\ phost' = (IF "P" \in rc THEN phost ELSE TRUE)
   /\ state' = "Checking"
   /\ (LET r == IF sel = "none" THEN NewRound(pend, rc', nrounds) ELSE [pend |-> pend, n |-> nrounds]
-      IN /\ pend' = r.pend /\ nrounds' = r.n
-         /\ routes' = Sent(routes, PendDsts(r.pend) \ PendDsts(pend)))
+      IN pend' = r.pend /\ nrounds' = r.n)
+  \* connectivity checks go out on the raw socket (IceGatherer::get_socket), not through the session handle:
+  \* they do not route their destination back to this session
+  /\ UNCHANGED routes
   /\ last' = [kind |-> "start", delivered |-> TRUE]
   /\ UNCHANGED <<sel, nom, cfgv>>
   /\ Log([op |-> "start"])
@@ -135,7 +137,7 @@ Accept(src, uc, rt) ==
                  THEN NewRound(pend, rc1, nrounds) ELSE [pend |-> pend, n |-> nrounds]
   IN /\ rc' = rc1 /\ sel' = sel1 /\ state' = state1 /\ nom' = nom1
      /\ pend' = r.pend /\ nrounds' = r.n
-     /\ routes' = Sent(rt, {src} \cup (PendDsts(r.pend) \ PendDsts(pend)))      \* the reply and the new checks
+     /\ routes' = Sent(rt, {src})             \* the reply goes through the session handle (new checks do not)
 
 \* whom the USERNAME of a request names (shared_tcp.rs: peer_ufrag_from_binding_request)
 UserLocal(u) == CASE u = "ok" -> "us"
